@@ -788,20 +788,30 @@ impl<'a> Searcher<'a> {
                                         let mut ok = false;
 
                                         if file_type.is_symlink() {
-                                            if let Ok(resolved) = std::fs::read_link(&path) {
+                                            if let Ok(target) = std::fs::read_link(&path) {
                                                 // a relative target is relative to the directory
                                                 // that holds the link, not to the working directory
                                                 let resolved = match path.parent() {
-                                                    Some(parent) if resolved.is_relative() => {
-                                                        parent.join(resolved)
+                                                    Some(parent) if target.is_relative() => {
+                                                        parent.join(&target)
                                                     }
-                                                    _ => resolved,
+                                                    _ => target.clone(),
                                                 };
 
                                                 // links to anything but a directory are only listed
                                                 if resolved.is_dir() {
                                                     ok = true;
                                                     path = resolved;
+                                                } else if target.is_relative() {
+                                                    // the path written out so far may hold more links than one lookup
+                                                    // resolves (40), or be longer than a path may be, while the
+                                                    // directory behind the link is perfectly reachable from the
+                                                    // real place of the directory that holds the link
+                                                    let resolved = Path::new(&canonical_path).join(&target);
+                                                    if resolved.is_dir() {
+                                                        ok = true;
+                                                        path = resolved;
+                                                    }
                                                 }
                                             }
                                         } else if file_type.is_dir() {
